@@ -3,6 +3,7 @@
 mod areader;
 mod c01;
 mod c02;
+mod c04;
 mod c20;
 
 use hvcommon::args::Args;
@@ -12,6 +13,7 @@ fn main() {
     match args.cmd() {
         "c01" => c01::main(&args),
         "c02" => c02::main(&args),
+        "c04" => c04::main(&args),
         "c20" => c20::main(&args),
         other => {
             eprintln!("unknown sub-command {:?}", other);
